@@ -46,12 +46,13 @@ const (
 	CtSteps
 	CtSwitches // steps at which the running task changed
 	CtInnerYields
+	CtFaultStall // fault: a task pre-empted at an inner point was held back for several steps
 	NumCounters
 )
 
 // CounterNames for evidence.
 var CounterNames = [NumCounters]string{"pool_get", "pool_get_hit", "pool_get_new", "pool_put",
-	"fault_putdrop", "fault_miss", "fault_gc", "gc_dropped_objects", "steps", "task_switches", "inner_yields"}
+	"fault_putdrop", "fault_miss", "fault_gc", "gc_dropped_objects", "steps", "task_switches", "inner_yields", "fault_stall"}
 
 // FaultDen is the denominator of all fault rates.
 const FaultDen = 256
@@ -71,19 +72,20 @@ type yieldMsg struct {
 
 // Task is one simulated caller thread.
 type Task struct {
-	ID        int
-	Name      string
-	Step      int // global step number of the step this task is executing
-	PanicVal  any
-	sim       *Sim
-	resume    chan int
-	fn        func(*Task)
-	parked    int // site the task is parked at
-	prio      int
-	finished  bool
-	g         uintptr // goroutine identity of the task (see getg)
-	lockDepth int     // library locks currently held by the task: no inner yields while > 0
-	inner     bool    // parked at an inner point (inside a library call)
+	ID         int
+	Name       string
+	Step       int // global step number of the step this task is executing
+	PanicVal   any
+	sim        *Sim
+	resume     chan int
+	fn         func(*Task)
+	parked     int // site the task is parked at
+	prio       int
+	finished   bool
+	g          uintptr // goroutine identity of the task (see getg)
+	lockDepth  int     // library locks currently held by the task: no inner yields while > 0
+	inner      bool    // parked at an inner point (inside a library call)
+	stallUntil int     // not runnable before this step (stall fault), unless everybody is stalled
 }
 
 // Sim is one simulated run: choice source, scheduler, stub-pool environment.
@@ -114,6 +116,7 @@ type Sim struct {
 	InnerG      int   // inner yield points: after each resume the gap to the next inner yield is Draw(InnerG), 0 = none
 	InnerBudget int   // inner yields left in this run
 	innerGap    int
+	StallMax    int // stall fault: a task pre-empted at an inner point is held back for Draw(StallMax) steps
 	spawned     []*Task
 
 	// measurements
@@ -408,6 +411,7 @@ func (s *Sim) Run(estSteps int) {
 		runnable[i] = s.tasks[i]
 	}
 	var last *Task
+	var elig []*Task
 	lastSite := siteStart
 	lowPrio := 0
 	for len(runnable) > 0 {
@@ -418,6 +422,19 @@ func (s *Sim) Run(estSteps int) {
 		if s.step >= s.MaxSteps {
 			strategy = StratSequential
 			s.Overrun = true
+		}
+		// Stall fault: tasks held back are not eligible, unless all are.
+		all := runnable
+		if s.StallMax > 0 {
+			elig = elig[:0]
+			for i := 0; i < len(all); i++ {
+				if all[i].stallUntil <= s.step {
+					elig = append(elig, all[i])
+				}
+			}
+			if len(elig) > 0 {
+				runnable = elig
+			}
 		}
 		idx := 0
 		switch strategy {
@@ -495,6 +512,17 @@ func (s *Sim) Run(estSteps int) {
 		s.running = nil
 		last = t
 		t.parked = m.site
+		runnable = all
+		if t.inner && s.StallMax > 0 && m.site != siteDone {
+			if k := s.Sched.Draw(s.StallMax); k > 0 {
+				t.stallUntil = s.step + k
+				s.Counters[CtFaultStall]++
+				s.mix(0xe000 | uint64(k))
+				if s.Tracing {
+					s.Tracef("  FAULT stall: task %d held back for %d steps at its inner point", t.ID, k)
+				}
+			}
+		}
 		for i := 0; i < len(s.spawned); i++ {
 			runnable = append(runnable, s.spawned[i])
 		}
